@@ -46,6 +46,14 @@ claimed["C20"] = dict(
     technique="deterministic simulation: controlled map-iteration order and call histories (query / install / query), equality of answers across orders and histories",
 )
 
+claimed["C15"] = dict(
+    level="exploration",
+    text="Seeded search for the clause 'the same on every call': FindLookups over generated script lists (1..20 language systems), languages and feature switches under five controlled map-iteration orders incl. plain repetition; NewLayouter+Layout of generated strings over generated fonts with GSUB/GPOS/GDEF under four orders and with the first string laid out again on the same Layouter (history). The composition clauses (ascending in-range indices that equal the lookup set of some language system, one glyph per character without rules, kern-table pairs, standard f-ligatures) are evaluated on the same runs as incidental oracles.",
+    design="3 C15",
+    note="Trusted: the map-order seam, a ten-line model of 'lookups of one language system'. Not decided: which language system should be preferred for a given language; agreement with x/image's Kern.",
+    technique="deterministic simulation: controlled map-iteration order and Layouter call histories, equality of results across orders and repetitions",
+)
+
 pending = {k: PENDING_REASON for k in ["C01", "C02", "C03", "C07", "C15", "C16", "C18", "C19", "C20"] if k not in claimed}
 
 not_applicable = {
